@@ -478,6 +478,41 @@ func runC16(w *W) {
 		if bad != "" {
 			continue
 		}
+		// exact side: a context whose Done() is closed from its i-th sample on. Every sample the uncancelled run takes is a
+		// statement boundary the real code demonstrably reaches; closed there, Parse must answer with the context's error —
+		// syntax errors recorded earlier do not outrank it — and with a prefix of the uncancelled statements.
+		{
+			prd := &cancelReader{data: in, cancelAt: -1}
+			probe := &probeCtx{rd: prd, doneFrom: -1}
+			_ = safeParseReader(probe, prd, 1<<22)
+			for i := 0; i < len(probe.highs); i++ {
+				rd := &cancelReader{data: in, cancelAt: -1}
+				pc := &probeCtx{rd: rd, doneFrom: i}
+				obs := safeParseReader(pc, rd, 1<<22)
+				w.stats.Evaluations++
+				if obs.Panicked || obs.Budget {
+					continue
+				}
+				fail := ""
+				if !errors.Is(obs.Err, context.Canceled) {
+					fail = fmt.Sprintf("error %q is not the context's error", errString(obs.Err))
+				} else if ex, bad := explainAll(obs); bad == "" {
+					if len(ex) > len(baseEx) {
+						fail = fmt.Sprintf("%d statements with the context error, the uncancelled parse returns %d", len(ex), len(baseEx))
+					}
+					for j := range ex {
+						if fail == "" && ex[j] != baseEx[j] {
+							fail = fmt.Sprintf("statement %d returned with the context error is not statement %d of the uncancelled result", j, j)
+						}
+					}
+				}
+				if fail != "" {
+					w.Report(Finding{Kind: "cancel", Key: "cancel@a-after-syntax-error", Input: inq, InputHex: hexs(in),
+						Detail: fmt.Sprintf("custom context whose Done() is closed from its sample #%d on (the uncancelled run takes %d samples): %s", i, len(probe.highs), fail)})
+					break
+				}
+			}
+		}
 		for x := 0; x <= len(in); x++ {
 			if len(in) > 400 && x%7 != 0 {
 				continue
